@@ -92,7 +92,9 @@ def specOnOut (is : List Instruction) (out : Sexp) : Bool × String :=
     | .list [.atom "reparse", .list [.atom "ok", .list (.atom "listing" :: xs)]] => decodeInstructions xs
     | _ => none
   let c1 := ph == printErr && (ph || printOk)
-  let c2 := if !ph && wf then (match reparsed with | some r => equivInstrs l r | none => false) else true
+  -- calibrations whose structurally different keys print alike merge on re-parsing: excluded explicitly
+  let keys := calKeysStable l
+  let c2 := if !ph && wf && keys then (match reparsed with | some r => equivInstrs l r | none => false) else true
   -- the sibling routes: always-clauses for every program, wf-clauses for well-formed placeholder-free ones
   let c3 := allTrue "always" (piece out 6)
   let c4 := if !ph && wf then allTrue "wf" (piece out 7) else true
@@ -132,6 +134,7 @@ def handle (inp out : Sexp) : CaseResult :=
         tags := ["s-" ++ stream, sizeTag is.length,
             (if wf then "wellformed" else "not-wellformed"),
             (if ph then "placeholder" else "no-placeholder"),
+            (if calKeysStable l then "cal-keys-stable" else "CAL-KEYS-MERGE"),
             (if normChanged then "reparsed-differs-structurally" else "reparsed-identical"),
             (match piece out 7 with
              | .list (.atom "wf" :: xs) =>
